@@ -833,3 +833,33 @@ def model_value(m, t):
         a = v.approx(20)
         return Fraction(a.numerator_as_long(), a.denominator_as_long())
     raise ValueError(f"cannot evaluate {t} -> {v}")
+
+
+_CVC5_RESERVED = {"sin", "cos", "tan", "csc", "sec", "cot", "arcsin", "arccos", "arctan", "arccsc", "arcsec", "arccot", "exp", "sqrt", "pi",
+                  "abs", "divisible", "to_int", "to_real", "is_int", "iand", "int2bv", "bv2nat", "pow2", "exp2", "log"}
+
+
+def cvc5_check(smt2_text, timeout_ms=4000):
+    """decide an SMT-LIB2 benchmark (as dumped by z3's Solver.to_smt2) with cvc5; returns 'sat' | 'unsat' | 'unknown'"""
+    import cvc5
+    import re
+    # uninterpreted functions named like cvc5's transcendental theory symbols (sin, tan, exp ...) are renamed
+    for name in set(re.findall(r"\(declare-fun ([A-Za-z_][A-Za-z0-9_]*) ", smt2_text)) & _CVC5_RESERVED:
+        smt2_text = re.sub(r"(?<=[\s(])" + name + r"(?=[\s)])", "uf_" + name, smt2_text)
+    slv = cvc5.Solver()
+    slv.setOption("tlimit-per", str(int(timeout_ms)))
+    slv.setLogic("ALL")
+    parser = cvc5.InputParser(slv)
+    parser.setStringInput(cvc5.InputLanguage.SMT_LIB_2_6, smt2_text, "q")
+    sm = parser.getSymbolManager()
+    ans = "unknown"
+    while True:
+        cmd = parser.nextCommand()
+        if cmd.isNull():
+            break
+        out = str(cmd.invoke(slv, sm)).strip()
+        if out in ("sat", "unsat", "unknown"):
+            ans = out
+        elif out.startswith("(error"):
+            raise RuntimeError(out)
+    return ans
